@@ -222,7 +222,9 @@ func receiveFromTransport(ctx context.Context, c *channel, done chan<- struct{})
 			case c.inSesChan <- e:
 				// If a session is received while established,
 				// the receiver goroutine can stop.
-				if c.client {
+				if c.client && e.State.Step() >= c.State().Step() {
+					// A state that moves backwards is not stored (it would panic);
+					// it is reported as an error to whoever receives the session.
 					c.setStateWLock(e.State)
 				}
 				return
